@@ -96,6 +96,8 @@ def check(pid, k, pids, tier="quick", wt=None, patch=None):
             print(pid, k, p, "rc=%d" % rc, "viol=%d" % len(viol), "%ds" % (time.time() - t0), json.dumps(detail)[:600])
     finally:
         sh("git checkout -- .", cwd=wt)
+        # leave lean/Univers/Gen as /repo says (the runs above regenerated it from the patched worktree)
+        sh("%s -m harness.translate" % PY, cwd=VERIF)
     return results
 
 
@@ -137,7 +139,7 @@ def main(argv):
     elif cmd == "keep":
         pid, k = argv[1], argv[2]
         r = json.load(open(out_of(pid, k) + "/check.json"))
-        keep(pid, k, " ".join(argv[3:]), r)
+        keep(pid, k, " ".join(argv[3:]), r, name=os.environ.get("SEEDED_NAME"))
     elif cmd == "recheck":
         names = argv[1:] or sorted(os.listdir(os.path.join(VERIF, "seeded")))
         wt = "/tmp/seeded_recheck"
